@@ -8,6 +8,7 @@ import TdxModel.Drive.PckExt
 import TdxModel.Drive.CheckTool
 import TdxModel.Drive.Verify
 import TdxModel.Drive.Ccel
+import TdxModel.Drive.Heap
 
 open Tdx Tdx.Proto Tdx.Drive
 
@@ -29,6 +30,7 @@ def dispatch (l : Line) : P String :=
   | "V.levels" => Tdx.Drive.V.levels l
   | "C18.bank" => c18bank l
   | "C18.parse" => c18parse l
+  | "C16.concat" => c16concat l
   | op => .error s!"unknown op {op}"
 
 partial def loop (h : IO.FS.Stream) (out : IO.FS.Stream) (blobs : List (Nat × Bytes)) : IO Unit := do
